@@ -828,6 +828,172 @@ def make_pool_elem(name):
     return getattr(skfem, parts[0])()
 
 
+API_HOWS_MESH = ['with_defaults', 'satisfying', 'facets_around', 'incidence', 'is_valid', 'matmul', 'copy', 'trace', 'remove_nodes',
+                 'normalize', 'mapping', 'init_refdom']
+API_HOWS_BASIS = ['with_element', 'with_elements', 'boundary', 'facet_trace', 'refinterp', 'project', 'dofs', 'zeros_ones', 'composite_ops',
+                  'interior_facets', 'utils']
+API_COVERAGE = [
+    ('Mesh: refined / scaled / translated / mirrored / morphed / smoothed / with_boundaries / with_subdomains / restrict / remove_elements / '
+     '__add__ / to_dict / from_dict / save / load / save_npz / load_npz / oriented / from_mesh / constructors', True, True, 'pool histories + witnesses'),
+    ('Mesh.with_defaults, nodes_satisfying / facets_satisfying (boundaries_only, normal) / elements_satisfying, facets_around (flip), '
+     'p2f / p2t / p2e / e2t, boundary_edges, interior_nodes, is_valid, __matmul__, copy, trace, remove_unused_nodes, remove_duplicate_nodes, '
+     'normalize_nodes / normalize_facets / normalize_elements, mapping(), init_refdom', False, True,
+     "pool operation 'api' (operands checksummed, result == fresh pool, also after other operations on the same objects)"),
+    ('CellBasis.with_element / with_elements / boundary / refinterp / project, FacetBasis.trace / with_element / project, '
+     'AbstractBasis.get_dofs / complement_dofs / zeros / ones / zero_w / __matmul__ / __mul__, CompositeBasis.interpolate / X / W (get_dofs raises NotImplementedError), '
+     'InteriorFacetBasis', False, True, "pool operation 'api' on long-lived bases"),
+    ('utils.rcm, build_pc_ilu (as M of solver_iter_krylov), adaptive_theta, projection / project (deprecated wrappers)', False, True,
+     "pool operation 'api' how=utils: operands unchanged, result == fresh"),
+    ('MeshTri1.init_symmetric / init_lshaped / init_circle, MeshTet1/MeshTet2.init_ball, MeshDG.periodic / init_tensor (MeshQuad1DG, MeshLine1DG), Mesh.smoothed (fixed_nodes)', False, True,
+     'constructed inside the api operation and assembled on; source mesh of periodic() checksummed'),
+    ('Mesh.draw / plot, AbstractBasis.plot / plot3 / draw, MeshDG.draw / save / load', False, False, 'out of scope: visualisation; MeshDG.save/load raise NotImplementedError'),
+    ('Mesh.param / params', False, False, 'out of scope: pure functions of p, t without state (C18)'),
+]
+
+
+def do_api(pool, d, mon):
+    """public call forms around the core: every one returns new objects, must leave its operands unchanged and give the same
+    result as on a fresh pool"""
+    import skfem
+    import skfem.utils as U
+    how = d['how']
+    m = mon.watch(pool.mesh(d['mesh']), 'mesh')
+    dim = m.dim()
+    lo, mid = float(m.p[0].min()), float(m.p[0].mean())
+    if how == 'with_defaults':
+        r = m.with_defaults()
+        return canon([r, {k_: int(len(v)) for k_, v in (r.boundaries or {}).items()}])
+    if how == 'satisfying':
+        out = [m.nodes_satisfying(lambda x: x[0] <= mid), m.nodes_satisfying(lambda x: x[0] <= mid, boundaries_only=True),
+               m.facets_satisfying(lambda x: x[0] <= mid), m.facets_satisfying(lambda x: x[0] <= mid, boundaries_only=True),
+               m.elements_satisfying(lambda x: x[0] <= mid)]
+        if dim >= 2:
+            out.append(m.facets_satisfying(lambda x: x[0] <= mid, normal=np.array([1.0] + [0.0] * (dim - 1))))
+        return canon(out)
+    if how == 'facets_around':
+        els = mon.watch(np.arange(max(1, m.t.shape[1] // 2)), 'elements')
+        a, b = m.facets_around(els), m.facets_around(els, flip=True)
+        return canon([a, b])
+    if how == 'incidence':
+        out = [m.p2f, m.p2t, m.interior_nodes()]
+        if dim == 3:
+            out += [m.p2e, m.e2t, m.boundary_edges(), m.interior_edges()]
+        return canon(out)
+    if how == 'is_valid':
+        return canon([bool(m.is_valid())])
+    if how == 'matmul':
+        other = mon.watch(m.translated(tuple([float(m.p[0].max() - lo) + 1.0] + [0.0] * (dim - 1))), 'other')
+        return canon([m @ other, m + other])
+    if how == 'copy':
+        return canon(m.copy())
+    if how == 'trace':
+        mt = mon.watch(pool.tagged(d['mesh']), 'tagged_mesh')
+        if dim == 1:
+            return canon(None)
+        r = mt.trace('low')
+        return canon([x_ for x_ in (r if isinstance(r, tuple) else (r,))])
+    if how == 'remove_nodes':
+        dup = m + m.translated(tuple([0.0] * dim))            # every node twice ... joined again by __add__
+        r1 = dup.remove_unused_nodes()
+        r2 = m.remove_duplicate_nodes() if hasattr(m, 'remove_duplicate_nodes') else None
+        return canon([r1, r2])
+    if how == 'normalize':
+        mt = mon.watch(pool.tagged(d['mesh']), 'tagged_mesh')
+        ar = mon.watch(np.array([1, 0]), 'index_array')
+        return canon([mt.normalize_facets('low'), mt.normalize_facets(ar), mt.normalize_facets(('low', 'gamma')),
+                      mt.normalize_elements('a'), mt.normalize_elements(ar), mt.normalize_nodes(ar), mt.normalize_nodes(lambda x: x[0] <= mid)])
+    if how == 'mapping':
+        X = mon.watch(_ref_points(FAMILY[d['mesh']], 1), 'X')
+        return canon([m.mapping().F(X), m.mapping().detDF(X)])
+    if how == 'init_refdom':
+        out = [type(m).init_refdom()]
+        if isinstance(m, skfem.MeshTri1):
+            out += [skfem.MeshTri.init_symmetric(), skfem.MeshTri.init_lshaped(), skfem.MeshTri.init_circle(1)]
+        if isinstance(m, skfem.MeshTet1):
+            out += [skfem.MeshTet.init_ball(1), skfem.MeshTet2.init_ball(1)]
+        if isinstance(m, (skfem.MeshTri1, skfem.MeshTet1)):
+            out += [m.smoothed(), m.smoothed(fixed_nodes=m.boundary_nodes())]
+        if isinstance(m, skfem.MeshQuad1):
+            out += [skfem.MeshQuad1DG.init_tensor(np.linspace(0, 1, 3), np.linspace(0, 1, 3), periodic=[0])]
+        return canon(out)
+    # ---- basis level
+    e = pool.elem(d['elem'])
+    bs = mon.watch(pool.basis(d['mesh'], d['elem']), 'basis')
+    y = mon.watch(np.cos(0.4 * np.arange(bs.N)), 'y')
+
+    @skfem.BilinearForm
+    def a(u, v, w):
+        return u * v * (1.0 + w.x[0])
+    if how == 'with_element':
+        e2 = make_pool_elem(d['elem2'])
+        return canon([a.assemble(bs.with_element(e2)), a.assemble(pool.fbasis(d['mesh'], d['elem']).with_element(e2))])
+    if how == 'with_elements':
+        sub = mon.watch(np.arange(max(1, m.t.shape[1] // 2)), 'elements')
+        r = bs.with_elements(sub)
+        return canon([a.assemble(r), r.element_dofs])
+    if how == 'boundary':
+        fb = bs.boundary()
+        fb2 = bs.boundary(facets=m.boundary_facets()[:2], intorder=3)
+        return canon([a.assemble(fb), a.assemble(fb2)])
+    if how == 'facet_trace':
+        if dim == 1:
+            return canon(None)
+        fb = skfem.FacetBasis(m, e, facets=m.facets_satisfying(lambda x: x[0] == lo, boundaries_only=True))
+        tb, ty = fb.trace(y, lambda p: p[1:] if dim == 3 else p[1])
+        return canon([ty, tb.N])
+    if how == 'refinterp':
+        M, w = bs.refinterp(y, nrefs=1)
+        return canon([M, w])
+    if how == 'project':
+        fb = pool.fbasis(d['mesh'], d['elem'])
+        return canon([bs.project(lambda x: 1.0 + x[0]), bs.project(bs.interpolate(y)), bs.project(lambda x: x[0], elements=np.array([0])),
+                      fb.project(lambda x: 1.0 + x[0])])
+    if how == 'dofs':
+        D = bs.get_dofs()
+        D2 = bs.get_dofs(lambda x: x[0] == lo)
+        D3 = bs.get_dofs(elements=np.array([0]))
+        return canon([D.all(), D2.all(), D3.all(), bs.complement_dofs(D), bs.nodal_dofs, bs.facet_dofs, bs.interior_dofs]
+                     + ([bs.edge_dofs] if dim == 3 else []))
+    if how == 'zeros_ones':
+        return canon([bs.zeros(), bs.ones(), bs.zero_w(), bs.zeros(dtype=np.complex128)])
+    if how == 'composite_ops':
+        b2 = skfem.Basis(m, make_pool_elem(d['elem2']), quadrature=(bs.X, bs.W))
+        c1, c2 = bs * b2, bs @ skfem.Basis(m, e, quadrature=(bs.X, bs.W))
+        yy = np.cos(0.2 * np.arange(c1.N))
+        f1 = c1.interpolate(yy)
+        f2 = c2.interpolate(np.cos(0.2 * np.arange(c2.N)))
+        return canon([[np.asarray(f_.value) for f_ in f1], [np.asarray(f_.value) for f_ in f2], c1.X, c1.W, c2.N, c2.element_dofs])
+    if how == 'interior_facets':
+        ib = skfem.InteriorFacetBasis(m, e, side=0)
+        ib1 = skfem.InteriorFacetBasis(m, e, side=1)
+        return canon([a.assemble(ib), a.assemble(ib1)])
+    if how == 'utils':
+        A, b, D, x = pool.system(d['mesh'], d['elem'])
+        key = ('cs', d['mesh'], d['elem'])
+        if key not in pool.objs:
+            pool.objs[key] = U.condense(A, b, x=x, D=D, expand=False)
+        Kc, fc = pool.objs[key]
+        mon.watch(Kc, 'A'); mon.watch(fc, 'b')
+        est = mon.watch(np.cos(np.arange(m.t.shape[1])) ** 2, 'estimators')
+        out = [list(U.rcm(Kc, fc)), U.adaptive_theta(est), U.adaptive_theta(est, theta=0.8)]
+        pc = U.build_pc_ilu(Kc)
+        out.append(U.solver_iter_krylov(M=pc, atol=1e-14)(Kc, fc))
+        out.append(U.project(lambda x: 1.0 + x[0], basis_to=bs))
+        out.append(U.projection(lambda x: 1.0 + x[0], basis_to=bs))
+        return canon(out)
+    if how == 'periodic':
+        if isinstance(m, skfem.MeshQuad1) and not isinstance(m, skfem.MeshQuad2):
+            left = m.nodes_satisfying(lambda x: x[0] == lo)
+            right = m.nodes_satisfying(lambda x: x[0] == float(m.p[0].max()))
+            mp = skfem.MeshQuad1DG.periodic(m, left, right)
+            return canon([a.assemble(skfem.Basis(mp, skfem.ElementQuad1())), mp.p, mp.t])
+        if isinstance(m, skfem.MeshLine1):
+            mp = skfem.MeshLine1DG.periodic(m, [int(np.argmin(m.p[0]))], [int(np.argmax(m.p[0]))])
+            return canon([a.assemble(skfem.Basis(mp, skfem.ElementLineP1())), mp.p, mp.t])
+        return canon(None)
+    raise KeyError(how)
+
+
 def canon(x):
     """results as nested tuples of (dtype, shape, bytes) so that equality is bit-equality"""
     import scipy.sparse as sp
@@ -998,6 +1164,8 @@ def do_op(pool, d, mon):
         i = d['i'] % len(e.doflocs)
         r = e.lbasis(X, i)
         return canon([np.array(a) for a in r])
+    if k == 'api':
+        return do_api(pool, d, mon)
     if k == 'retag':
         # tagging a mesh that ALREADY carries tags: same names (redefinition in the NEW mesh only) and new names
         mt = mon.watch(pool.tagged(d['mesh']), 'tagged_mesh')
@@ -1215,6 +1383,8 @@ def random_op(rng, sub=None):
         kinds += ['transform', 'transform', 'io', 'retag', 'retag']
     if ename in SCALAR_H1:
         kinds += ['transform_use', 'transform_use']
+    if fam in ('tri', 'quad', 'tet', 'hex', 'line') and ename in SCALAR_H1:
+        kinds += ['api', 'api', 'api']
     if ename in SCALAR_H1 and len([e for e in elems if e in SCALAR_H1]) >= 2:
         kinds += ['composite']
     if ename in SCALAR_H1:
@@ -1244,6 +1414,9 @@ def random_op(rng, sub=None):
         if fam in ('tri', 'tet', 'line'):
             hows += ['adaptive', 'smoothed'] if fam != 'line' else ['adaptive']
         return {'op': 'transform', 'mesh': mname, 'how': rng.choice(hows)}
+    if k == 'api':
+        e2 = rng.choice([e_ for e_ in elems if e_ in SCALAR_H1 and e_ != ename] or [ename])
+        return {'op': 'api', 'mesh': mname, 'elem': ename, 'elem2': e2, 'how': rng.choice(API_HOWS_MESH + API_HOWS_BASIS + ['periodic'])}
     if k == 'transform_use':
         return {'op': 'transform_use', 'mesh': mname, 'elem': ename,
                 'how': rng.choice(['translated', 'scaled', 'mirrored', 'morphed', 'with_boundaries', 'with_subdomains'])}
@@ -1691,6 +1864,28 @@ def search(ctx):
                      f'{name}: keyword arguments of an earlier call reach the backend of a later call', dict(w, site='closure'))
     # ---------------- constructors: caller-owned arrays and long-lived source meshes
     search_constructors(ctx)
+    # ---------------- API audit: every public call form around the core, cold and after the objects have been used
+    api_first = {'tri': ('ElementTriP2', 'ElementTriP1'), 'quad': ('ElementQuad1', 'ElementQuad2'), 'tet': ('ElementTetP1', 'ElementTetP2'),
+                 'hex': ('ElementHex1', 'ElementHex1'), 'line': ('ElementLineP1', 'ElementLineP2')}
+    napi, raised_both = 0, []
+    for mname, (ename, e2) in api_first.items():
+        for how in API_HOWS_MESH + API_HOWS_BASIS + ['periodic']:
+            op = {'op': 'api', 'mesh': mname, 'elem': ename, 'elem2': e2, 'how': how}
+            ops = [{'op': 'asm', 'mesh': mname, 'elem': ename}, {'op': 'conn', 'mesh': mname}, op, op]
+            log = []
+            problems, _ = run_history(ops, collect=log)
+            napi += 1
+            ctx.count(('api', mname, how), nontrivial=True)
+            if log[2][1] is not None and log[2][2] is not None:
+                raised_both.append(f'{MESH_SPECS[mname]["cls"]}:{how}:{log[2][1][:80]}')
+            for k, kind, detail in problems:
+                if k < 2:
+                    continue
+                key = f'operand-mutated:api:{how}:{MESH_SPECS[mname]["cls"]}' if kind == 'mutated' else f'history-dependent:api:{how}:{MESH_SPECS[mname]["cls"]}'
+                ctx.fail(key, f'public call form {how} on a {MESH_SPECS[mname]["cls"]} ({ename}): {kind}: {detail}',
+                         {'site': 'history', 'ops': ops[:k + 1], 'kind': kind, 'detail': detail, 'changed': detail if kind == 'mutated' else None})
+    ctx.extra['api_search'] = {'call_forms': napi, 'raising_in_pooled_and_fresh_alike': raised_both}
+    ctx.extra['api_coverage'] = [{'callable': a_, 'covered_before': b_, 'covered_now': c_, 'note': d_} for a_, b_, c_, d_ in API_COVERAGE]
     # ---------------- use a mesh, transform it, use the result (every family x transformation)
     first = {'tri': 'ElementTriP2', 'quad': 'ElementQuad1', 'tet': 'ElementTetP1', 'hex': 'ElementHex1', 'line': 'ElementLineP1',
              'tri_r': 'ElementTriP1', 'quad2': 'ElementQuad2'}
